@@ -411,7 +411,12 @@ func (r ReferenceStorage) CheckAndSetReference(ref, old *plumbing.Reference) err
 
 	if old != nil {
 		tmp := r[ref.Name()]
-		if tmp != nil && tmp.Hash() != old.Hash() {
+		if tmp == nil {
+			// Same as the filesystem storage: a conditional update
+			// of a reference that does not exist is refused.
+			return plumbing.ErrReferenceNotFound
+		}
+		if tmp.Hash() != old.Hash() {
 			return storage.ErrReferenceHasChanged
 		}
 	}
